@@ -61,6 +61,8 @@ REQUIRED_LABELS = {
 REQUIRED_LABELS["thorough"] = list(REQUIRED_LABELS["quick"])
 
 KEYS = ["inputs", "outputs", "parameters", "op_cost"]
+SPATIAL = ("conv2d", "kconv2d", "conv1d", "kconv1d", "dw2d", "kdw2d", "avgpool",
+           "qavgpool", "gap", "qgap")
 _STATE = {"n": 0}
 
 
@@ -265,6 +267,36 @@ def oracle(ctx, case):
     for key in ("multiplier",):
       if n["k"] in G.WEIGHTED and rep[name].get(key):
         labels.add("op:" + str(rep[name][key].get("op_type")))
+
+  # (a') the public helper asked about another geometry of the same layer:
+  # get_operation_count(layer, input_shape) takes the input shape explicitly,
+  # conv / depthwise / pooling layers are resolution agnostic
+  from qkeras.qtools import qtools_util  # pylint: disable=g-import-not-at-top
+  alt = case.get("alt", [2, 3])
+  for i, n in enumerate(nodes):
+    if n["k"] not in SPATIAL:
+      continue
+    s0 = ins[i][0]
+    nd = len(s0) - 1
+    s1 = [s0[a] + alt[a % 2] for a in range(nd)] + [s0[-1]]
+    cls = G.KERAS_CLASS[n["k"]]
+    want = expected_count(n, [s1])
+    try:
+      with _quiet():
+        got = qtools_util.get_operation_count(model.get_layer("N%d" % i),
+                                              tuple([None] + s1))
+    except Exception as e:  # pylint: disable=broad-except
+      fails.append(("operation_count_direct_raises",
+                    dict(core.exc_signature(e), layer=cls), repr(e)[:300]))
+      continue
+    labels.add("direct_other_geometry")
+    if got != want:
+      sig = count_signature(n, [s1], got, want)
+      if got == counts.get(i):
+        sig["reported"] = "count_of_the_built_geometry"
+      fails.append(("operation_count_direct", sig,
+                    "N%d %s built for %r, asked about %r: got %r, loop nest %r" %
+                    (i, cls, s0, s1, got, want)))
 
   # (b)-(e) energy
   for opt in case["pe"]:
@@ -556,12 +588,74 @@ def case_strategy(quick):
       if draw(st.integers(0, 2)) == 0:
         cfgd[c] = draw(st.lists(st.sampled_from(KEYS), unique=True, max_size=4))
     return {"in_shape": in_shape, "src": src, "nodes": nodes, "pe": pe,
-            "cfg": cfgd}
+            "cfg": cfgd, "alt": [draw(st.integers(1, 4)), draw(st.integers(1, 4))]}
 
   return case19()
 
 
+def fixed_cases():
+  """Hand-built models that together produce every REQUIRED label; run first
+  and regardless of the time budget (the vacuity guard must not depend on how
+  far a slow machine gets)."""
+  qb = lambda b, i, a=None: {"t": "qb", "bits": b, "int": i, "sym": 1, "kn": 1,
+                             "alpha": a}
+  relu = {"t": "relu", "bits": 4, "int": 1}
+  conv = lambda k, f, inp, **kw: dict(
+      {"k": k, "filters": f, "ks": [3, 3], "st": [1, 1], "dil": [1, 1],
+       "pad": "same", "bias": True, "kq": qb(4, 0, 1.0), "bq": qb(4, 0), "in": [inp]},
+      **kw)
+  pes = [[{"w": "dram", "a": "dram", "min_sram": 0, "io": True},
+          {"w": "sram", "a": "sram", "min_sram": 1024, "io": False}],
+         [{"w": "fixed", "a": "dram", "min_sram": 2 ** 20, "io": False},
+          {"w": "dram", "a": "sram", "min_sram": 0, "io": True}]]
+  cfgd = {"default": ["inputs", "parameters", "op_cost"], "QActivation": ["outputs"]}
+  a = [conv("conv2d", 4, -1, st=[2, 2]),
+       {"k": "act", "q": relu, "in": [0]},
+       conv("kconv2d", 4, 1, pad="valid", dil=[2, 2]),
+       {"k": "bn", "in": [2]},
+       {"k": "kact", "in": [3]},
+       conv("conv2d", 4, 4, ks=[1, 1]), conv("kconv2d", 4, 4),
+       {"k": "add", "in": [5, 6]},
+       conv("conv2d", 4, 7, ks=[1, 1]), conv("conv2d", 4, 7, ks=[2, 2]),
+       {"k": "mul", "in": [8, 9]},
+       conv("kconv2d", 2, 10, ks=[1, 1]),
+       {"k": "cat", "in": [10, 11]},
+       {"k": "maxpool", "pool": [2, 2], "st": [1, 1], "pad": "valid", "in": [12]},
+       {"k": "gap", "in": [13]},
+       {"k": "kdense", "units": 3, "bias": True, "in": [14]},
+       {"k": "dense", "units": 2, "bias": True, "kq": {"t": "ter"}, "bq": qb(4, 0),
+        "in": [15]}]
+  dwgeo = {"ks": [2, 2], "st": [1, 1], "dil": [1, 1], "pad": "valid", "bias": True}
+  b = [dict({"k": "dw2d", "kq": {"t": "po2", "bits": 4, "mv": None}, "bq": qb(4, 0),
+             "in": [-1]}, **dwgeo),
+       dict({"k": "kdw2d", "in": [0]}, **dict(dwgeo, pad="same")),
+       {"k": "avgpool", "pool": [2, 2], "st": [2, 1], "pad": "same", "in": [1]},
+       {"k": "qavgpool", "pool": [2, 1], "st": [1, 2], "pad": "valid",
+        "q": qb(6, 0), "in": [2]},
+       {"k": "qgap", "q": qb(6, 0), "in": [3]},
+       {"k": "dense", "units": 2, "bias": False, "kq": qb(4, 0, 1.0), "bq": qb(4, 0),
+        "in": [4]}]
+  c1 = lambda k, inp, **kw: dict(
+      {"k": k, "filters": 3, "ks": [3], "st": [1], "dil": [1], "pad": "causal",
+       "bias": True, "kq": qb(4, 0, 1.0), "bq": qb(4, 0), "in": [inp]}, **kw)
+  c = [c1("conv1d", -1), c1("kconv1d", 0, pad="same", st=[2]),
+       c1("conv1d", 1, pad="valid", dil=[2], kq={"t": "bin"}),
+       {"k": "flatten", "in": [2]},
+       {"k": "kdense", "units": 2, "bias": False, "in": [3]}]
+  out = []
+  for j, (shape, nodes) in enumerate((([12, 12, 3], a), ([7, 6, 2], b), ([11, 2], c))):
+    out.append({"in_shape": shape, "src": qb(6, 0), "nodes": nodes,
+                "pe": pes[j % 2], "cfg": cfgd, "alt": [2, 3]})
+  out.append({"in_shape": [7, 6, 2], "src": qb(6, 0), "nodes": b, "pe": pes[0],
+              "cfg": {"QDense": ["op_cost"]}, "alt": [1, 4]})
+  return out
+
+
 def run(ctx):
+  for case in ctx.shard(fixed_cases()):      # never cut by the budget
+    ctx.labels["fixed_prefix"] += 1
+    for sc, sig, detail in oracle(ctx, case):
+      ctx.fail(sc, sig, case, detail)
   n = (2880 if ctx.quick else 40000) // ctx.n + 1
   core.hyp_run(ctx, case_strategy(ctx.quick), lambda c: oracle(ctx, c), n,
                name="c19")
